@@ -1957,7 +1957,14 @@ func (c *compiler) VisitCastExpr(e *ast.CastExpr) ast.VisitResult {
 				break
 			}
 
-			c.latestReturn, c.latestReturnType, c.latestIsTemp = c.castNonAnyToAny(lhs, lhsTyp, isTempLhs, lhsTyp.VTable())
+			// a value of a type definition keeps its identity inside the Variable,
+			// as it does when it is converted implicitly (VisitVarDecl, VisitAssignStmt)
+			vtable := lhsTyp.VTable()
+			if typeDef, isTypeDef := ddptypes.CastTypeDef(e.LhsType); e.LhsType != nil && isTypeDef {
+				vtable = c.typeDefVTable(typeDef)
+			}
+
+			c.latestReturn, c.latestReturnType, c.latestIsTemp = c.castNonAnyToAny(lhs, lhsTyp, isTempLhs, vtable)
 		default:
 			if lhsTyp == c.ddpany {
 				nonPrimitiveAnyCast()
@@ -3018,7 +3025,8 @@ func (c *compiler) VisitReturnStmt(s *ast.ReturnStmt) ast.VisitResult {
 	}
 	val, valTyp, isTemp := c.evaluate(s.Value)
 	vtable := valTyp.VTable()
-	if typeDef, isTypeDef := ddptypes.CastTypeDef(s.Func.ReturnType); isTypeDef {
+	// the vtable is only used if the value is converted to a Variable: then the type of the returned value decides
+	if typeDef, isTypeDef := ddptypes.CastTypeDef(s.ValueType); s.ValueType != nil && isTypeDef {
 		vtable = c.typeDefVTable(typeDef)
 	}
 	if valTyp.IsPrimitive() {
